@@ -65,6 +65,12 @@ func (s c16Spec) ops(st *c16State) (out []opx) {
 			out = append(out, x)
 		}
 		out = append(out, txnOp(w, []model.Act{{Op: "del", Off: r}}, false))
+		if i == 0 {
+			// overwrite and delete of one row in one transaction: the row is gone
+			x := txnOp(w, []model.Act{{Op: "put", Off: r, W: []model.Write{{Col: "s", V: model.Val{S: "a"}}}}, {Op: "del", Off: r}}, false)
+			x.tag = "write and delete of one row in one transaction"
+			out = append(out, x)
+		}
 	}
 	if !st.hasIndex {
 		out = append(out, opx{label: "createSortIndex(sorted on s)", run: func() []eng.Violation {
@@ -148,7 +154,7 @@ func (st *c16State) checkAscend() (vs []eng.Violation) {
 		gs := append([]uint32{}, got...)
 		sort.Slice(gs, func(i, j int) bool { return gs[i] < gs[j] })
 		if !sameU32s(gs, want) {
-			wit := "Ascend visits a different set of rows than the selected rows holding a value"
+			wit := "Ascend after " + f.name + " visits a different set of rows than the selected rows holding a value"
 			dup := false
 			for i := 1; i < len(gs); i++ {
 				if gs[i] == gs[i-1] {
@@ -156,7 +162,7 @@ func (st *c16State) checkAscend() (vs []eng.Violation) {
 				}
 			}
 			if dup {
-				wit = "Ascend visits a row more than once"
+				wit = "Ascend after " + f.name + " visits a row more than once"
 			}
 			vs = append(vs, eng.Violation{Assert: "ascend/complete", Witness: wit, ReadOnly: false,
 				Detail: fmt.Sprintf("after %s: Ascend visited %v (values %q), selected rows holding s: %v", f.name, got, vals, want)})
